@@ -14,7 +14,7 @@ def parts(ctx):
     dec = load('util/decimal.rs')
     for f, why in (('dollar_precision_str', 'string formatting'), ('to_string_min_precision', 'string formatting'), ('to_string_min_precision', 'string formatting'),
                    ('parse_large_decimal', 'string parsing')):
-        dec.drop_fn(f, why=why)
+        dec.ext_fn(f, why=why + ' (kept as an unconstrained assumed function so that calls from verified code still resolve)')
     math = load('util/math.rs')
     aff = load('portfolio/model/affiliate.rs')
     aff.drop_rx(r'(?m)^lazy_static! \{', why='(regex / global dedup table)')
@@ -86,6 +86,7 @@ TAG_RULES = [
     (r'delta_list::fn lemma_opening_equiv', ['C16']),
     (r'delta_list::fn get_delta_superficial_loss_info', ['C02']),
     (r'delta_list::fn sanity_check_ptfs', ['C04']),
+    (r'delta_list::fn delta_for_tx', ['C01', 'C03']),
     (r'delta_list::', ['C01']),
     (r'superficial_loss::', ['C02']),
     (r'portfolio_status::.*fn new', ['C04', 'C16']),
